@@ -278,6 +278,10 @@ def c03_catalogue(quick):
            # a URL that failed transiently before the kill is retried by the resumed run
            scenario('crash-flaky', [U(1, links=[2, 3]), U(2, kind='script', seq=['error500', 'page'], links=[]), U(3)],
                     dict(tries=3), N=1)]
+    # statement-level kill points (one small site): a kill between two statements of one transaction leaves nothing
+    st = scenario('crash-chain-statements', chain, N=1)
+    st['stmt_points'] = 1
+    out.append(st)
     # a depth limit and a page reachable over two paths of different length: the interrupted page (short path) must be
     # taken up again in its old place, not after everything else
     # (the two extra leaves keep the queue busy while the long path is walked)
